@@ -4,9 +4,9 @@ CONSTANTS
   FixZeroSize = TRUE
   RdsUnit = "sec"
   NK = 3
-  ValSet = {1, 2}
-  TTLSet = {1}
-  SizeSet = {1, 2}
+  ValSet = {1}
+  TTLSet = {}
+  SizeSet = {2}
   DTTLSet = {2}
   TickSet = {1}
 INVARIANTS TypeOK Conforms Sane ContractShape MemShape ExpiredAsAbsent Agree
